@@ -11,7 +11,8 @@ from . import c12
 
 PROPERTY = "C13"
 LEVEL = "exploration"
-RULE = ("cases = C12-style populations (parameterised covergroup class => several types, several instances, regular / "
+RULE = ("cases = C12-style populations (parameterised covergroup class, in 45% of the cases two such classes => several types "
+        "under one or two type names, several instances, regular / "
         "ignore / illegal bins, cross, at_least/weight options, optional user-given instance names) with a generated "
         "history of create/sample operations and report points (report model, text report with details, UCIS XML "
         "write + read-back) at arbitrary positions.  At each report point every type, instance, coverpoint, cross and "
@@ -69,13 +70,14 @@ def cases(d):
     if has_cross:
         cg["crosses"] = [{"name": "x0", "cps": ["cp1", "cp2"], "options": xo or None}]
     named = d.chance(50)
+    two_classes = d.chance(45)        # a second covergroup class of the same structure (another type name)
     ops = [["new", 0]]
     ninst = 1
     nops = d.randint(3, 24)
     for k in range(nops):
         r = d.randint(0, 99)
         if ninst < 4 and r < 15:
-            ops.append(["new", d.randint(0, nvar - 1)])
+            ops.append(["new", d.randint(0, nvar - 1)] + ([d.randint(0, 1)] if two_classes else []))
             ninst += 1
         elif r < 30:
             ops.append(["report", d.choice(["model", "text", "xml"])])
@@ -109,11 +111,11 @@ class Model:
         cp2 = self.cg["cps"][1]
         self.b2, self.ig2, self.il2 = cov.ref_bins(cp2, list(range(16)))
 
-    def new(self, variant):
+    def new(self, variant, cls=0):
         n, hi = variant
         cp1 = dict(self.cg["cps"][0], bins=[{"name": "x", "kind": "arr", "n": n, "items": [[0, hi]]}])
         b1, ig1, il1 = cov.ref_bins(cp1, list(range(16)))
-        self.inst.append({"shape": tuple(tuple(sorted(s)) for s in b1), "b1": b1, "ig1": ig1, "il1": il1,
+        self.inst.append({"shape": (cls, tuple(tuple(sorted(s)) for s in b1)), "b1": b1, "ig1": ig1, "il1": il1,
                           "h": {"cp1": [0] * len(b1), "cp1.ig": [0] * len(ig1), "cp1.il": [0] * len(il1),
                                 "cp2": [0] * len(self.b2), "cp2.ig": [0] * len(self.ig2), "cp2.il": [0] * len(self.il2),
                                 "x0": [0] * (len(b1) * len(self.b2))}})
@@ -135,7 +137,8 @@ class Model:
             h["x0"][k1[0] * len(self.b2) + k2[0]] += 1
 
     def shapes(self):
-        """-> list of (shape, [instance indices]) in order of first creation"""
+        """-> list of (shape, [instance indices]): classes in order of first creation, within a class the shapes in order
+        of first creation (the order in which the registry lists type covergroups)"""
         out = []
         for i, m in enumerate(self.inst):
             for sh, lst in out:
@@ -144,7 +147,11 @@ class Model:
                     break
             else:
                 out.append((m["shape"], [i]))
-        return out
+        order = []
+        for sh, _ in out:
+            if sh[0] not in order:
+                order.append(sh[0])
+        return [x for c_ in order for x in out if x[0][0] == c_]
 
     def summed(self, idxs):
         keys = self.inst[idxs[0]]["h"].keys()
@@ -274,7 +281,7 @@ def run_case(case):
     has_cross = bool(cg.get("crosses"))
     reset_library()
     try:
-        ns = cov.build([cg])
+        ns = cov.build([cg, dict(cg, name="CGB")])
     except Exception as e:
         reset_library()
         return [V("library_exception", "construction: " + exc_sig(e), case, repr(e)[:200])], {}
@@ -289,12 +296,13 @@ def run_case(case):
             try:
                 if op[0] == "new":
                     v = case["variants"][op[1]]
-                    o = ns["CG"](v[0], v[1])
+                    cls_i = op[2] if len(op) > 2 else 0
+                    o = ns["CGB" if cls_i else "CG"](v[0], v[1])
                     if case["named"]:
                         o.set_name("inst%d" % len(objs))
                         inst_names.append("inst%d" % len(objs))
                     objs.append(o)
-                    model.new(v)
+                    model.new(v, cls_i)
                     continue
                 if op[0] == "sample":
                     objs[op[1]].sample(op[2], op[3])
